@@ -151,6 +151,12 @@ C14_Stream == \A s \in ChanSubsOf("iter") :
           \E k \in 1..Len(h.fwd[s]) : h.fwd[s][k] = h.exp[i]
 C14_Detached == \A s \in ChanSubsOf("iter") : s \in h.registered /\ ~chan[s].held /\ lk["subs"] = "-" => ~InSeq(subs, s)
 
+(* C16: selector subscription through a running store: first notification, then changes only *)
+SelSubs == {s \in Subs : SubKind[s] = "sel"}
+C16_Store == \A s \in SelSubs :
+    /\ \A i \in 1..(Len(h.ntf[s]) - 1) : h.ntf[s][i].st # h.ntf[s][i + 1].st
+    /\ \A i \in 1..Len(h.ntf[s]) : \E k \in 1..Len(h.exp) : h.exp[k].a = h.ntf[s][i].a /\ SelVal(h.exp[k].st) = h.ntf[s][i].st
+
 (* C18: metrics *)
 C18_Monotone == [][\A k \in DOMAIN m : m'[k] >= m[k]]_vars
 C18_Balance == Quiet =>
